@@ -176,7 +176,7 @@ func (t *DomTree) NumNodes() int {
 }
 
 func (t *DomTree) In(n int) []int {
-	return t.idom[n : n+1]
+	return t.idom[n : n+1 : n+1]
 }
 
 func (t *DomTree) Out(n int) []int {
